@@ -145,3 +145,11 @@ package stateful
 // failed type assertion, integer division, conversions, explicit panic).
 //@ sweep ^\(\*?\w+\)\.Call$
 //@   props C04 C05
+
+// ---------------------------------------------------------------- eval_function_node.go (C04, C05)
+
+// A function-call node, for any number of (non-nil) argument evaluators and any scope: typing it
+// and evaluating it return a value or an error, never a panic.
+//@ sweep ^\(\*EvalFunctionNode\)\.(Type|callFunction|Eval\w+)$
+//@   props C04 C05
+//@   requires forall i int :: 0 <= i && i < len(n.argsEvaluators) ==> n.argsEvaluators[i] != nil
